@@ -86,6 +86,9 @@ pub fn judge(root: &Path, c: &Case) -> Result<(), (String, String)> {
     let name = "entry";
     let key = Key::new(name, c.hash, c.sec);
     let (p1, p2, h1, h2) = expected_paths(root, c, name);
+    // byte-exact paths for planting (the strings above are lossy and only compared with the trace)
+    let pp1 = root.join(so::dir_name(h1)).join(name);
+    let pp2 = root.join(so::dir_name(h2)).join(name);
     let n_eff = c.n.max(2) as u64;
     if h1 == h2 || h1 >= n_eff || h2 >= n_eff {
         return Err(("oracle".into(), format!("oracle produced invalid shards {} {} for n {}", h1, h2, n_eff)));
@@ -178,7 +181,7 @@ pub fn judge(root: &Path, c: &Case) -> Result<(), (String, String)> {
         2 => {
             // an entry sitting in the secondary shard is found; one in any third shard is not
             let v = Val::new(name, 2, 2, 17);
-            plant_file(Path::new(&p2), &v.encode(), 0o444);
+            plant_file(&pp2, &v.encode(), 0o444);
             let cache = sharded::Cache::new(root.to_path_buf(), c.n, 1000);
             let res = (|| {
                 match cache.get(key) {
@@ -260,8 +263,8 @@ pub fn judge(root: &Path, c: &Case) -> Result<(), (String, String)> {
                 // both copies present (allowed under concurrent writers): every handle must return the primary one
                 let vp = Val::new(name, 5, 5, 17);
                 let vs = Val::new(name, 6, 6, 17);
-                plant_file(Path::new(&p1), &vp.encode(), 0o444);
-                plant_file(Path::new(&p2), &vs.encode(), 0o444);
+                plant_file(&pp1, &vp.encode(), 0o444);
+                plant_file(&pp2, &vs.encode(), 0o444);
                 for (who, h) in [("loaded", &cache), ("fresh", &fresh)] {
                     let (r, ev) = traced(&world, || h.get(key));
                     match r {
@@ -306,8 +309,24 @@ pub fn replay(v: &serde_json::Value) -> Result<(), String> {
 pub fn run(ctx: &Ctx) -> Report {
     let mut rep = Report::default();
     rep.assumptions.insert(drop_privileges());
-    // oracle sanity: every shard index is reachable through the boundary preimages
     let scratch = Scratch::new("c12");
+    // a slice of the cases runs under a cache root whose path is NOT valid UTF-8 (Latin-1 byte):
+    // placement must be byte-exact, whatever the encoding of the directory name
+    {
+        use std::os::unix::ffi::OsStrExt;
+        let odd = scratch.path.join(std::ffi::OsStr::from_bytes(b"caf\xe9-root"));
+        crate::shim::bypass(|| std::fs::create_dir_all(&odd).unwrap());
+        let mut rng = ctx.rng(1212);
+        for i in 0..ctx.share(ctx.scale(4_000, 40_000)) {
+            let c = Case { hash: rng.next(), sec: rng.next(), n: [2usize, 3, 7, 64, 257, 65537][rng.below(6) as usize], kind: 1 + (i % 2) as u8, label: "non-UTF-8 cache root" };
+            rep.case(Some(fnv(format!("odd{}-{}-{}-{}", c.hash, c.sec, c.n, c.kind).as_bytes())));
+            rep.label(c.label);
+            if let Err((sig, detail)) = judge(&odd, &c) {
+                rep.violation(&sig, format!("[cache root with a non-UTF-8 name] {}", detail), case_json(&c));
+                break;
+            }
+        }
+    }
     let cases = ctx.share(ctx.scale(600_000, 10_000_000)) as u32;
     let rep_cell = std::cell::RefCell::new(&mut rep);
     let found = prop_search(ctx, 12, cases, 500, &gen_case(), |c, exploring| {
